@@ -120,7 +120,12 @@ pub struct VmCase {
 pub fn p_case(t: &mut Toks) -> R<VmCase> {
     let mode = t.tok()?.to_string();
     let prog = t.bytes()?;
-    let pc = t.nat()?;
+    // `<pc>` or `h<pc>`: the public `halt` flag of the initial Vm is set
+    let pc_tok = t.tok()?;
+    let (halt0, pc) = match pc_tok.strip_prefix('h') {
+        Some(r) => (true, r.parse::<usize>().map_err(|e| e.to_string())?),
+        None => (false, pc_tok.parse::<usize>().map_err(|e| e.to_string())?),
+    };
     let st = t.words()?;
     let mem = t.words()?;
     let pm = t.list(|t| t.words())?;
@@ -161,7 +166,7 @@ pub fn p_case(t: &mut Toks) -> R<VmCase> {
             .into_iter()
             .map(|m| Memory::try_from(m).map(Arc::new).map_err(|e| e.to_string()))
             .collect::<R<Vec<_>>>()?,
-        halt: false,
+        halt: halt0,
         repeat,
         cache: Default::default(),
     };
